@@ -20,11 +20,13 @@ pub struct Ref<'a> {
     /// measuring aid only: no check extension at or beyond this ply (i32::MAX = the reference itself)
     pub xcap: i32,
     pub max_ext_ply: i32,
+    /// measuring aid only: nodes with less remaining depth than this are not put on the repetition record
+    pub record_min_depth: u8,
 }
 
 impl<'a> Ref<'a> {
     pub fn new(h: &'a ZobristHasher, cap: u64) -> Ref<'a> {
-        Ref { h, nodes: 0, cap, capped: false, qcap: u32::MAX, max_qply: 0, xcap: i32::MAX, max_ext_ply: 0 }
+        Ref { h, nodes: 0, cap, capped: false, qcap: u32::MAX, max_qply: 0, xcap: i32::MAX, max_ext_ply: 0, record_min_depth: 0 }
     }
 
     fn quiesce(&mut self, board: &BoardState) -> i32 {
@@ -150,7 +152,6 @@ impl<'a> Ref<'a> {
         if count >= 2 {
             return 0;
         }
-        table.add_board_to_draw_table(board);
         if depth == 0 {
             if ply < self.xcap && is_check(board, board.to_move) {
                 depth = 1;
@@ -158,9 +159,12 @@ impl<'a> Ref<'a> {
                     self.max_ext_ply = ply;
                 }
             } else {
-                table.remove_board_from_draw_table(board);
                 return self.quiesce_ab(board, alpha, beta);
             }
+        }
+        let on_record = depth >= self.record_min_depth;
+        if on_record {
+            table.add_board_to_draw_table(board);
         }
         let mut moves = generate_moves(board, MoveGenerationMode::AllMoves, self.h);
         moves.sort_by_key(|k| std::cmp::Reverse(k.order_heuristic));
@@ -189,7 +193,9 @@ impl<'a> Ref<'a> {
             }
             best
         };
-        table.remove_board_from_draw_table(board);
+        if on_record {
+            table.remove_board_from_draw_table(board);
+        }
         v
     }
 }
